@@ -285,13 +285,13 @@ class SSETransport(Transport):
                     current_event = None
                     continue
 
-                # Parse SSE format
-                if line.startswith("event: "):
-                    current_event = line[7:].strip()
+                # Parse SSE format (the space after the colon is optional)
+                if line.startswith("event:"):
+                    current_event = line[6:].strip()
                     logger.debug(f"SSE event type: {current_event}")
 
-                elif line.startswith("data: "):
-                    data = line[6:].strip()
+                elif line.startswith("data:"):
+                    data = line[5:].strip()
 
                     # Handle different event types
                     if current_event == "endpoint":
